@@ -59,6 +59,10 @@ class C19(Property):
         ("antismash/common/secmet/features/feature.py", "Feature.is_contained_by"),
         ("antismash/common/secmet/features/feature.py", "Feature.overlaps_with"),
         ("antismash/common/secmet/features/cdscollection.py", "CDSCollection.crosses_origin"),
+        # the constructors whose checks are the theorems' hypotheses (`collOK`, `featOK`)
+        ("antismash/common/secmet/features/cdscollection.py", "CDSCollection.__init__"),
+        ("antismash/common/secmet/features/feature.py", "Feature.__init__"),
+        ("antismash/common/secmet/features/protocluster.py", "Protocluster.__init__"),
         ("antismash/common/secmet/features/cdscollection.py", "CoredCollectionMixin.core_start"),
         ("antismash/common/secmet/features/cdscollection.py", "CoredCollectionMixin.core_end"),
         ("antismash/common/secmet/locations.py", "locations_overlap"),
@@ -69,7 +73,7 @@ class C19(Property):
             "whole record) filled with 0-6 protoclusters (extent + core on a coarse grid with +-1 jitter, symmetric and "
             "asymmetric neighbourhoods, cores before/after/across the origin), 0-6 candidate clusters over random subsets "
             "(all four kinds), 0-3 subregions and 0-6 genes incl. origin-spanning forward/reverse and multi-exon genes; "
-            "regions that span the origin and tile the whole record (`[s,L)+[0,s)`, by two children or "
+            "protocluster cores that tile the record (core_start == core_end); regions that span the origin and tile the whole record (`[s,L)+[0,s)`, by two children or "
             "by one child doing so alone); twins: two different protoclusters with the same extent and product (other core and/or a "
             "sideloaded annotation); regions built directly (`Region(candidates, subregions)`) or by `create_candidate_clusters` + "
             "`create_regions`; plus `pack` alone on unsorted area lists; thorough/deep adds the small scope L=24, protocluster "
@@ -143,6 +147,8 @@ class C19(Property):
             if layout == "whole" and rng.random() < 0.2:
                 ext = (0, wlen)
             core = self.rand_interval(rng, ext[0], ext[1], max(step // 2, 1))
+            if ext[1] - ext[0] == L and rng.random() < 0.5:
+                core = ext      # a core that tiles the record like its protocluster (core_start == core_end)
             if rng.random() < 0.04:     # malformed on purpose: core not inside the extent
                 core = (max(ext[0] - 1, 0), core[1]) if rng.random() < 0.5 else (core[0], min(core[1] + 1, wlen))
             protos.append({"loc": place(ext), "core": place(core), "product": f"p{i}",
@@ -255,7 +261,7 @@ class C19(Property):
         return {"kind": "pack", "L": L, "areas": areas, "length": length}
 
     def cases(self, rng: random.Random, tier: str, deep: bool) -> Iterator[Dict[str, Any]]:
-        n = 60000 if deep else 14000
+        n = 60000 if deep else 11000
         for i in range(n):
             if i % 8 == 7:
                 yield self.rand_pack(rng)
